@@ -54,6 +54,42 @@ fn main() {
     let a: Vec<String> = std::env::args().collect();
     match a[1].as_str() {
         "bucket" => bucket(&a[2..]),
+        // routing: bounded probes of the routing functions against their specification (strings over a small alphabet, small route
+        // tables in every order, round-robin loads)
+        "routing" => {
+            use varpulis_cluster::pipeline_group::{DeployedPipelineGroup, InterPipelineRoute, PartitionStrategy, PipelineGroupSpec, PipelinePlacement, ReplicaGroup};
+            use varpulis_cluster::routing::{event_type_matches, find_target_pipeline};
+            let alpha = ['a', 'b', '*', '.'];
+            let mut strs: Vec<String> = vec![String::new()];
+            for len in 1..=3 { let prev: Vec<String> = strs.iter().filter(|s| s.len() == len - 1).cloned().collect(); for p in prev { for c in alpha { let mut t = p.clone(); t.push(c); strs.push(t); } } }
+            let spec = |t: &str, p: &str| p == "*" || (p.ends_with('*') && t.starts_with(&p[..p.len() - 1])) || (!p.ends_with('*') && t == p);
+            for t in &strs { for p in &strs { if event_type_matches(t, p) != spec(t, p) { println!("REPRODUCED event_type_matches({:?}, {:?}) = {}, specification says {}", t, p, event_type_matches(t, p), spec(t, p)); std::process::exit(1); } } }
+            let pats = ["a", "a*", "*", "b", "ab", ""];
+            let mk_place = |n: &str| PipelinePlacement { name: n.into(), source: String::new(), worker_affinity: None, replicas: 1, partition_key: None };
+            for p1 in pats { for p2 in pats { for p3 in pats { for npipe in 0..=2usize { for t in ["a", "ab", "b", "c", ""] {
+                let routes = vec![InterPipelineRoute { from_pipeline: "x".into(), to_pipeline: "T1".into(), event_types: vec![p1.into(), p2.into()], nats_subject: None },
+                                  InterPipelineRoute { from_pipeline: "x".into(), to_pipeline: "T2".into(), event_types: vec![p3.into()], nats_subject: None }];
+                let pipelines: Vec<PipelinePlacement> = (0..npipe).map(|i| mk_place(&format!("P{i}"))).collect();
+                let g = DeployedPipelineGroup::new("g".into(), "g".into(), PipelineGroupSpec { name: "g".into(), pipelines, routes });
+                let want: Option<String> = if spec(t, p1) || spec(t, p2) { Some("T1".into()) } else if spec(t, p3) { Some("T2".into()) } else if npipe > 0 { Some("P0".into()) } else { None };
+                let got = find_target_pipeline(&g, t).map(|s| s.to_string());
+                if got != want { println!("REPRODUCED find_target_pipeline(routes [{:?},{:?}]->T1, [{:?}]->T2, {npipe} pipelines, {:?}) = {:?}, expected {:?}", p1, p2, p3, t, got, want); std::process::exit(1); }
+            } } } } }
+            for n in 0..=5usize { for start in [0usize, 1, 7, usize::MAX - 3] {
+                let g = ReplicaGroup::new("pipe".into(), (0..n).map(|i| format!("r{i}")).collect(), PartitionStrategy::RoundRobin);
+                g.counter.store(start, std::sync::atomic::Ordering::Relaxed);
+                let fields = Default::default();
+                let mut loads = vec![0usize; n.max(1)];
+                for k in 0..(3 * n + 2) { let r = g.select_replica(&fields).to_string();
+                    if n == 0 { if r != "pipe" { println!("REPRODUCED select_replica with no replicas returned {:?}", r); std::process::exit(1); } continue; }
+                    let want = format!("r{}", start.wrapping_add(k) % n);
+                    if r != want && start < usize::MAX - 100 { println!("REPRODUCED round-robin select_replica call {k} from counter {start} with {n} replicas returned {:?}, expected {:?}", r, want); std::process::exit(1); }
+                    if let Some(i) = r.strip_prefix('r').and_then(|x| x.parse::<usize>().ok()) { loads[i] += 1; }
+                    let (mn, mx) = (loads.iter().min().unwrap(), loads.iter().max().unwrap());
+                    if start < usize::MAX - 100 && mx - mn > 1 { println!("REPRODUCED round-robin loads {:?} differ by more than one ({n} replicas, start {start})", loads); std::process::exit(1); }
+                } } }
+            println!("OK routing probes agree with the specification");
+        }
         _ => panic!("unknown subcommand"),
     }
 }
